@@ -16,16 +16,15 @@ Definition key_scope (k : ustring) : bool :=
 
 (* an extension entry that declares itself a toplevel-property-extension vouches for extra top-level
    properties that the library does not look at *)
-Definition not_toplevel_ext (m : list (ustring * jvalue)) : bool :=
-  negb (jvalue_eqb (match alookup (u "extension_type") m with Some t => t | None => JNull end)
-                   (JStr (u "toplevel-property-extension"))).
+Definition entry_scope (k : ustring) (v : jvalue) : bool :=
+  key_scope k &&
+  negb (ustr_eqb k (u "extension_type") && jvalue_eqb v (JStr (u "toplevel-property-extension"))).
 
 Fixpoint jscope (j : jvalue) : bool :=
   match j with
   | JArr l => (fix go (l : list jvalue) : bool := match l with [] => true | x :: r => jscope x && go r end) l
-  | JObj m => not_toplevel_ext m &&
-              (fix go (m : list (ustring * jvalue)) : bool :=
-                 match m with [] => true | kv :: r => key_scope (fst kv) && jscope (snd kv) && go r end) m
+  | JObj m => (fix go (m : list (ustring * jvalue)) : bool :=
+                 match m with [] => true | kv :: r => entry_scope (fst kv) (snd kv) && jscope (snd kv) && go r end) m
   | _ => true
   end.
 
@@ -34,16 +33,52 @@ Definition dict_scope (m : list (ustring * jvalue)) : bool := jscope (JObj m).
 Lemma jscope_arr l : jscope (JArr l) = forallb jscope l.
 Proof. reflexivity. Qed.
 
-Lemma jscope_obj m : jscope (JObj m) = not_toplevel_ext m && forallb (fun kv => key_scope (fst kv) && jscope (snd kv)) m.
+Lemma jscope_obj m : jscope (JObj m) = forallb (fun kv => entry_scope (fst kv) (snd kv) && jscope (snd kv)) m.
 Proof. reflexivity. Qed.
 
-Lemma dict_scope_forall m : dict_scope m = true -> forallb (fun kv => key_scope (fst kv) && jscope (snd kv)) m = true.
-Proof. unfold dict_scope. rewrite jscope_obj. intros H. apply andb_true_iff in H. tauto. Qed.
+Lemma dict_scope_forall m : dict_scope m = true -> forallb (fun kv => entry_scope (fst kv) (snd kv) && jscope (snd kv)) m = true.
+Proof. unfold dict_scope. rewrite jscope_obj. auto. Qed.
 
-Lemma dict_scope_In m k v : dict_scope m = true -> In (k, v) m -> key_scope k = true /\ jscope v = true.
+Lemma dict_scope_In' m k v : dict_scope m = true -> In (k, v) m -> entry_scope k v = true /\ jscope v = true.
 Proof.
   intros H Hin. apply dict_scope_forall in H. rewrite forallb_forall in H.
   specialize (H _ Hin). simpl in H. apply andb_true_iff in H. auto.
+Qed.
+
+Lemma dict_scope_In m k v : dict_scope m = true -> In (k, v) m -> key_scope k = true /\ jscope v = true.
+Proof.
+  intros H Hin. destruct (dict_scope_In' _ _ _ H Hin) as [A B]. split; auto.
+  unfold entry_scope in A. apply andb_true_iff in A. tauto.
+Qed.
+
+(* in scope, no entry of an `extensions` dictionary declares itself a toplevel-property-extension *)
+Lemma dict_scope_not_toplevel m :
+  dict_scope m = true ->
+  jvalue_eqb (match alookup (u "extension_type") m with Some t => t | None => JNull end)
+             (JStr (u "toplevel-property-extension")) = false.
+Proof.
+  intros H. destruct (alookup (u "extension_type") m) as [t|] eqn:E; auto.
+  apply alookup_In in E. destruct (dict_scope_In' _ _ _ H E) as [A _].
+  unfold entry_scope in A. apply andb_true_iff in A. destruct A as [_ A].
+  rewrite ustr_eqb_refl in A. simpl in A. apply negb_true_iff in A. exact A.
+Qed.
+
+Lemma dict_scope_filter m p : dict_scope m = true -> dict_scope (filter p m) = true.
+Proof.
+  unfold dict_scope. rewrite !jscope_obj, !forallb_forall. intros H x Hx. apply filter_In in Hx. apply H. tauto.
+Qed.
+
+Lemma dict_scope_aset m k v : dict_scope m = true -> entry_scope k v = true -> jscope v = true -> dict_scope (aset k v m) = true.
+Proof.
+  unfold dict_scope. rewrite !jscope_obj, !forallb_forall. intros H Hk Hv x Hx.
+  apply In_aset in Hx. destruct Hx as [-> | Hx]; auto. simpl. rewrite Hk, Hv. auto.
+Qed.
+
+Lemma dict_scope_aremove m k : dict_scope m = true -> dict_scope (aremove k m) = true.
+Proof.
+  unfold dict_scope. rewrite !jscope_obj. induction m as [|[k' v] m IH]; simpl; auto.
+  intros H. apply andb_true_iff in H. destruct H as [H1 H2].
+  destruct (ustr_eqb k k'); simpl; auto. rewrite H1. simpl. auto.
 Qed.
 
 Lemma dict_scope_lookup m k v : dict_scope m = true -> alookup k m = Some v -> jscope v = true.
